@@ -102,6 +102,7 @@ func C06(tier rt.Tier) int {
 		us = append(us, universe{name: "fork-2txns", parents: []int{-1, 0, 0}, keys: []string{"k"}, txns: 2, kinds: []int{0}, depth: 40})
 		us = append(us, universe{name: "chain3-direct-block-set", parents: []int{-1, 0, 1}, keys: []string{"k"}, txns: 1, kinds: []int{0}, depth: 40, directSet: true})
 		us = append(us, universe{name: "chain3-late-block-hash", parents: []int{-1, 0, 1}, keys: []string{"k"}, txns: 1, kinds: []int{0}, depth: 40, lateHash: true})
+		us = append(us, universe{name: "fork-fresh-txn-handles", parents: []int{-1, 0, 0}, keys: []string{"k"}, txns: 2, kinds: []int{0}, depth: 40, freshTxn: true})
 		us = append(us, universe{name: "fork-statecache-remove", parents: []int{-1, 0, 0}, keys: []string{"k"}, txns: 1, kinds: []int{0}, depth: 40, scRemove: true})
 	} else {
 		per = 30 * time.Second
@@ -111,6 +112,7 @@ func C06(tier rt.Tier) int {
 		for i, s := range shapes(3) {
 			us = append(us, universe{name: fmt.Sprintf("3blocks-2keys-2txns-shape%d", i), parents: s, keys: []string{"k", "j"}, txns: 2, kinds: []int{0}, depth: 60})
 		}
+		us = append(us, universe{name: "fork-fresh-txn-handles", parents: []int{-1, 0, 0}, keys: []string{"k", "j"}, txns: 2, kinds: []int{0}, depth: 60, freshTxn: true})
 	}
 	for _, u := range us {
 		b := per
@@ -121,7 +123,7 @@ func C06(tier rt.Tier) int {
 	}
 	capacityScenarios(rep)
 	rep.Set("dedup", haveDump)
-	rep.Set("rule", "for every block forest of the stated size: BFS to closure over events {txn Set/Remove/Commit, block Commit (any order, children before parents), lookups through TransactionCache, BlockCache, QueryBlockCache and StateCache at every block (lookups are events: they memoise)}; every hit must equal the block-tree model's most recent write on the context's own chain (own uncommitted writes first), removed/unknown keys and chains through uncommitted blocks must miss; states merged on model + dumped private cache contents (overlay-added dump file); after every transition all lookups are additionally evaluated on the throw-away instance; plus 12 macro-event capacity scenarios (150..260 sibling writers of one key around the per-key capacity 200, with/without re-reading an old ancestor)")
+	rep.Set("rule", "for every block forest of the stated size: BFS to closure over events {txn Set/Remove/Commit, opening a new transaction cache for a slot (one universe), block Commit (any order, children before parents), lookups through TransactionCache, BlockCache, QueryBlockCache and StateCache at every block (lookups are events: they memoise)}; every hit must equal the block-tree model's most recent write on the context's own chain (own uncommitted writes first), removed/unknown keys and chains through uncommitted blocks must miss; states merged on model + dumped private cache contents (overlay-added dump file); after every transition all lookups are additionally evaluated on the throw-away instance; plus 12 macro-event capacity scenarios (150..260 sibling writers of one key around the per-key capacity 200, with/without re-reading an old ancestor)")
 	rep.Assumption("universes stay far below every LRU capacity (asserted); capacity/eviction behaviour is covered by separate macro-scenarios only")
 	return rep.Finish()
 }
